@@ -146,6 +146,9 @@ type ConnSpec struct {
 	// the client to renegotiate. (No Go server implements renegotiation: the client's new
 	// ClientHello is then refused, which ends the connection.)
 	ServerHelloRequest func(n int) bool
+	// AuxClient, if set, runs as a further client-side task of the connection ("<name>.aux"): a
+	// second caller thread on the same UConn (it waits for whatever it needs by itself).
+	AuxClient func(o *ConnOutcome)
 	// ExtraHandshakers: that many further tasks call Handshake on the same UConn, each after a
 	// drawn number of scheduler steps once the client task is about to call Handshake itself
 	// (default client only). Their results go to ConnOutcome.ExtraErrs.
@@ -432,6 +435,9 @@ func RunConn(c *Ctx, w *simrt.World, sp *ConnSpec) *ConnOutcome {
 		}()
 		sf(o, l.B)
 	})
+	if sp.AuxClient != nil {
+		w.Go(sp.Name+".aux", func() { sp.AuxClient(o) })
+	}
 	o.ExtraErrs = make([]error, sp.ExtraHandshakers)
 	o.ExtraRan = make([]bool, sp.ExtraHandshakers)
 	for i := 0; i < sp.ExtraHandshakers; i++ {
